@@ -1213,6 +1213,34 @@ def r01_12(ctx):
                     z = e[1] if rv["op"] == "Ne" else e[0]
                     if b in f.reachable_from(nz) and b not in f.reachable_from(z, avoid={nz}):
                         ok = True
+            if not ok and f.parent_fn and f.parent_fn in prog.fns:
+                # `(bits != 0).then(|| bits.trailing_zeros())`: the closure runs only when the receiver of bool::then is true,
+                # and the receiver is the non-zero test of the captured bitmap
+                from ..analysis import upvar_parent_leaves
+                par = prog.fns[f.parent_fn]
+                cap = set()
+                for lf in backward_slice(f, [l])[1] if l is not None else []:
+                    for x in upvar_parent_leaves(prog, f, lf):
+                        pass
+                    if lf[0] == "place" and lf[1][0] == 1:
+                        ks = [e[1] for e in lf[1][1] if isinstance(e, list) and e[0] == "."]
+                        for pb, pi, ps in par.assigns():
+                            prv = ps["rv"]
+                            if prv["k"] == "agg" and prv.get("ak") == "closure" and prv.get("def") == f.id and ks and ks[0] < len(prv["f"]) and op_place(prv["f"][ks[0]]) is not None:
+                                cl = op_place(prv["f"][ks[0]])[0]
+                                cap |= backward_slice(par, [cl], through_calls=False)[0] | {cl}
+                for pb, pt in par.calls():
+                    if callee_is(pt, "then") and "bool" in pt["callee"] and _closure_passed(par, pt, f):
+                        rl = op_local(pt["args"][0])
+                        d = par.single_def(rl) if rl is not None else None
+                        for _ in range(4):
+                            if d and d[0] == "stmt" and d[3]["rv"]["k"] == "use" and op_local(d[3]["rv"]["op"]) is not None:
+                                d = par.single_def(op_local(d[3]["rv"]["op"]))
+                        if d and d[0] == "stmt" and d[3]["rv"]["k"] == "binop" and d[3]["rv"]["op"] == "Ne" and 0 in (op_int(d[3]["rv"]["a"]), op_int(d[3]["rv"]["b"])):
+                            o = d[3]["rv"]["a"] if op_int(d[3]["rv"]["b"]) == 0 else d[3]["rv"]["b"]
+                            ol = op_local(o)
+                            if ol is not None and ((backward_slice(par, [ol], through_calls=False)[0] | {ol}) & cap):
+                                ok = True
             seen[short(f.id)] += 1
             ctx.ob("R01.12", f"{short(f.id)}#{seen[short(f.id)]}", ok, f.loc(t["ln"]),
                    "trailing_zeros() is taken on the non-zero edge of a test of the same bitmap" if ok else
